@@ -593,6 +593,7 @@ func genRetry(ctx *Ctx, c04 bool) {
 	saturationPhase(ctx, n)
 	idleClosePhase(ctx, n)
 	sendFailedPhase(ctx)
+	removalPhase(ctx, n)
 	if c04 {
 		frontPhase(ctx)
 	}
@@ -902,4 +903,53 @@ func stripEnvelope(flags byte, b []byte) []byte {
 		}
 	}
 	return b
+}
+
+// removalPhase: the host a request is waiting on leaves the cluster (the peers table no longer lists it and the control
+// connection is re-established, which merges the tables at once): its pool is closed, the request is notified and must
+// go on with the hosts of ITS plan in their order -- the plan was taken before the removal and must not be disturbed by it.
+func removalPhase(ctx *Ctx, n int) {
+	for round := 0; round < ctx.Scale(3, 20); round++ {
+		e, err := newRetryEnv(ctx, n)
+		if err != nil {
+			panic(err)
+		}
+		e.noHeal = true
+		kinds := e.stmtKinds(false)
+		k := kinds[0]
+		for i := 0; i < round%n; i++ { // start from different ring positions
+			tok := e.token()
+			e.request(tok, 0, "SELECT v FROM ks.t WHERE k = 'tok:"+tok+"'", nil)
+		}
+		plan := e.plan()
+		first := plan[0]
+		tok := e.token()
+		boot := scOutcome{kind: 1, code: int(primitive.ErrorCodeIsBootstrapping), label: "bootstrapping"}
+		e.be.SetScript(tok, fb.Outcome{Kind: fb.Silence}, boot.backend(), fb.Outcome{Kind: fb.OkRows})
+		go func() {
+			time.Sleep(200 * time.Millisecond)
+			var rest []int
+			for h := 1; h <= n; h++ {
+				if h != first {
+					rest = append(rest, h)
+				}
+			}
+			e.be.SetTopology(rest...)
+			e.be.SetFailSystemOn(first, true) // the control connection must come back on another host
+			e.be.DropRegistered()
+		}()
+		hosts, reply, _ := e.request(tok, k.kind, k.text(tok), nil)
+		var pv, hvs []hv.V
+		for _, h := range plan {
+			pv = append(pv, hv.I(int64(h)))
+		}
+		for _, h := range hosts {
+			hvs = append(hvs, hv.I(int64(h)))
+		}
+		lost := scOutcome{kind: 3, label: "host-removed-from-the-cluster"}
+		in := hv.L(hv.I(1), hv.Bool(k.idem), hv.L(pv...), hv.L(), hv.L(lost.val(), boot.val(), scOutcome{kind: 0, label: "result"}.val()), hv.S(k.label))
+		ctx.Emit(in, hv.L(hv.L(hvs...), reply), "host-removed-while-the-request-waits-on-it:"+k.label)
+		ctx.Count("scripted:host-removed-mid-request")
+		e.close()
+	}
 }
